@@ -12,14 +12,9 @@ Static roles (property C20, static-role fragment): well-formed programs, the sto
 * `AccOK`: the path accumulator is reflected by the outgoing edges of the executing task.
 -/
 import PieModel.Build.StoreLemmas
+import PieModel.Build.RolesDef
 
 namespace PieModel
-
-/-- Static roles: `rank` orders the task names (a task only requires tasks of strictly greater
-rank), `gen r = some w` designates `w` as the only potential writer of resource `r`. -/
-structure Roles where
-  rank : Nat → Nat
-  gen : Nat → Option Nat
 
 /-- What a task did so far on the current execution path: the tasks it required and the
 resources it wrote. -/
